@@ -16,15 +16,15 @@ Open Scope R_scope.
 (** the regenerated Lewis table is strictly increasing in the teeth number *)
 Theorem C09_table_increasing : increasing (@lewis_table RA).
 Proof. exact lewis_table_increasing. Qed.
-(** on a strictly increasing table the interpolation lies on the chord between adjacent knots ... *)
+(** on a strictly increasing table the interpolation lies on the chord of the segment [x0, x1) that contains the argument ... *)
 Theorem C09_lewis_on_chord : forall (t : list (R * R)) x, increasing t ->
   forall x0 y0 x1 y1 pre post, t = (pre ++ (x0, y0) :: (x1, y1) :: post)%list ->
-  (pre = [] -> x0 <= x) -> (pre <> [] -> x0 < x) -> x <= x1 ->
+  x0 <= x -> x < x1 ->
   @interp_segments RA t x = y0 + (y1 - y0) * ((x - x0) / (x1 - x0)).
 Proof. exact interp_on_chord. Qed.
-(** ... equals the tabulated value at every knot ... *)
+(** ... equals the tabulated value at every knot (the first and the last included) ... *)
 Theorem C09_lewis_at_knot : forall t : list (R * R), increasing t ->
-  forall x0 y0 x1 y1 pre post, t = (pre ++ (x0, y0) :: (x1, y1) :: post)%list -> @interp_segments RA t x1 = y1.
+  forall xk yk pre post, t = (pre ++ (xk, yk) :: post)%list -> @interp_segments RA t xk = yk.
 Proof. exact interp_at_knot. Qed.
 (** ... and is clamped to the first / last tabulated value outside the table *)
 Theorem C09_lewis_clamped : forall (t : list (R * R)) xf yf xl yl mid x, t = ((xf, yf) :: mid ++ [(xl, yl)])%list ->
